@@ -278,13 +278,13 @@ func (p *prover) linOf(v ssa.Value) lin {
 			p.markNonneg(v)
 		}
 		switch n {
-		case "(encoding/binary.bigEndian).Uint16", "(encoding/binary.littleEndian).Uint16":
+		case "encoding/binary.(bigEndian).Uint16", "encoding/binary.(littleEndian).Uint16":
 			p.markNonneg(v)
 			p.setUpper(atomKey{v, false}, 65535)
-		case "(encoding/binary.bigEndian).Uint32", "(encoding/binary.littleEndian).Uint32":
+		case "encoding/binary.(bigEndian).Uint32", "encoding/binary.(littleEndian).Uint32":
 			p.markNonneg(v)
 			p.setUpper(atomKey{v, false}, (1<<32)-1)
-		case "(encoding/binary.bigEndian).Uint64", "(encoding/binary.littleEndian).Uint64":
+		case "encoding/binary.(bigEndian).Uint64", "encoding/binary.(littleEndian).Uint64":
 			p.markNonneg(v)
 		}
 	case *ssa.UnOp:
@@ -352,6 +352,27 @@ func (p *prover) lenOf(v ssa.Value) lin {
 		if x.Op == token.MUL {
 			if fw := p.forward(x); fw != nil {
 				return p.lenOf(fw)
+			}
+		}
+	case *ssa.Call:
+		// callee that returns a suffix of one of its parameters: p[c:]
+		if cal := x.Call.StaticCallee(); cal != nil && len(cal.Blocks) == 1 {
+			for _, in := range cal.Blocks[0].Instrs {
+				rt, ok := in.(*ssa.Return)
+				if !ok || len(rt.Results) != 1 {
+					continue
+				}
+				if sl, ok := rt.Results[0].(*ssa.Slice); ok && sl.High == nil && sl.Low != nil {
+					if c0, ok := constInt64(sl.Low); ok {
+						for j, prm := range cal.Params {
+							if sl.X == ssa.Value(prm) && j < len(x.Call.Args) {
+								l := p.lenOf(x.Call.Args[j])
+								l.c -= c0
+								return l
+							}
+						}
+					}
+				}
 			}
 		}
 	case *ssa.Const:
@@ -917,10 +938,10 @@ func (p *prover) obligationsOf(scope func(ssa.Value) bool) []boundsObl {
 				}
 				if need > 0 && len(x.Call.Args) >= 1 {
 					arg := x.Call.Args[0]
-					if x.Call.IsInvoke() {
-						arg = x.Call.Args[0]
-					} else if len(x.Call.Args) >= 2 && strings.HasPrefix(n, "(encoding/binary.") {
-						arg = x.Call.Args[1] // receiver first
+					if !x.Call.IsInvoke() && len(x.Call.Args) >= 2 {
+						if cal := x.Call.StaticCallee(); cal != nil && cal.Signature.Recv() != nil {
+							arg = x.Call.Args[1] // receiver first
+						}
 					}
 					if !scope(arg) {
 						continue
